@@ -68,12 +68,15 @@ FLOORS = {
               'route:eval': 8000, 'route:const': 8000, 'route:alert': 8000, 'route:input': 8000, 'route:const-text': 400,
               'transparency_compared': 4000, 'rejected_outcome_checked': 5000, 'child_runs': 10,
               'child_control_ok': 1, 'kind:attr': 1000, 'kind:compose': 2000, 'kind:strbuild': 800, 'kind:shadow': 600,
-              'kind:fmt': 400},
+              'kind:fmt': 400, 'nfkc_variants': 1200, 'nfkc_builtins_swept': len(X.BUILTIN_NAMES),
+              'nfkc_dunder_without_ascii_pair': 200, 'nfkc_touching_evaluations': 900, 'nfkc_transparency_compared': 500},
     'thorough': {'evaluations': 330000, 'distinct_nontrivial': 110000, 'roots_executed': 600000, 'call_events': 150000,
                  'name_reads': 350000, 'builtins_swept': len(X.BUILTIN_NAMES),
                  'sweep_cases': len(X.BUILTIN_NAMES) * (len(X.CALL_ARGS) + len(X.PLACEMENTS)),
                  'route:const-text': 5000, 'transparency_compared': 80000, 'rejected_outcome_checked': 40000,
-                 'child_runs': 10, 'child_control_ok': 1},
+                 'child_runs': 10, 'child_control_ok': 1, 'nfkc_variants': 24000,
+                 'nfkc_builtins_swept': len(X.BUILTIN_NAMES), 'nfkc_dunder_without_ascii_pair': 5000,
+                 'nfkc_touching_evaluations': 22000, 'nfkc_transparency_compared': 12000},
 }
 SHARD_TIMEOUT = {'quick': 900, 'thorough': 5400}
 
